@@ -49,7 +49,7 @@ Init == /\ st = InitLedger
 \* every history record also carries the positions and margins after the operation, so that the
 \* harness can compare the account at every step of a replayed history and not only at its end
 Log(o) == /\ last' = o
-          /\ hist' = Append(hist, o @@ [pos |-> st'.pos, mrg |-> st'.mrg])
+          /\ hist' = Append(hist, o @@ [pos |-> st'.pos, mrg |-> st'.mrg, cash |-> st'.cash])
           /\ n' = n + 1
 
 \* NLV as a pure function of the state, NaN when some open position cannot be priced
